@@ -1185,6 +1185,38 @@ def shrink_structured(env, items, cfgs, release):
     return cur
 
 
+def run_model_robust(env, name, recs, order, skipped):
+    """langrun.run_model, but a crash of the model executable (native stack overflow of the OCaml
+    program on a generated program whose strings grow geometrically) only loses that one case:
+    the records completed before the crash are kept, the case it died on is recorded in
+    `skipped` (counted inconclusive), and the rest of the batch is run again."""
+    out = {}
+    remaining = list(order)
+    part = 0
+    while remaining:
+        nm = "%s.m%d" % (name, part)
+        part += 1
+        try:
+            out.update(langrun.run_model(env, nm, recs, remaining))
+            break
+        except RuntimeError as ex:
+            fed = [c for c in remaining if recs.get(c) and recs[c].get("ast") and recs[c].get("plan")]
+            path = os.path.join(env.work, nm + ".model")
+            partial = langrun.parse_records(open(path).read().splitlines()) if os.path.exists(path) else {}
+            died = None
+            for c in fed:
+                if c in partial and partial[c].get("complete"):
+                    out[c] = partial[c]
+                else:
+                    died = c
+                    break
+            if died is None or part > 20:
+                break
+            skipped.append({"case": died, "reason": str(ex)[-160:].strip()})
+            remaining = fed[fed.index(died) + 1:]
+    return out
+
+
 def correspond(env, searching=False, model=True):
     rng = env.rng
     thorough = env.tier == "thorough"
@@ -1221,6 +1253,7 @@ def correspond(env, searching=False, model=True):
     ref_totals, seen = {}, set()
     rejected, endings = 0, {}
     model_status = {"agree": 0, "inconclusive": 0, "disagree": 0}
+    model_skipped = []
     batch = 400
     for release in profiles:
         for b0 in range(0, len(cases), batch):
@@ -1229,10 +1262,7 @@ def correspond(env, searching=False, model=True):
             recs = langrun.run_impl(env, name, part, CFGS, release=release, timeout=1200)
             mrecs = {}
             if model and not release:
-                try:
-                    mrecs = langrun.run_model(env, name, recs, [c for c, _ in part])
-                except RuntimeError as ex:
-                    res["disagreements"].append({"stream": "model-run", "detail": str(ex)[:300]})
+                mrecs = run_model_robust(env, name, recs, [c for c, _ in part], model_skipped)
             for cid, src in part:
                 rec = recs.get(cid)
                 items, ending, vals, stats = meta[cid]
@@ -1294,10 +1324,7 @@ def correspond(env, searching=False, model=True):
             recs = langrun.run_impl(env, name, part, CFGS, release=release, timeout=1200)
             mrecs = {}
             if model and not release:
-                try:
-                    mrecs = langrun.run_model(env, name, recs, [c for c, _ in part])
-                except RuntimeError as ex:
-                    res["disagreements"].append({"stream": "model-run", "detail": str(ex)[:300]})
+                mrecs = run_model_robust(env, name, recs, [c for c, _ in part], model_skipped)
             for cid, src in part:
                 rec = recs.get(cid)
                 if rec is None:
@@ -1344,6 +1371,8 @@ def correspond(env, searching=False, model=True):
                     model_status[st] += 1
                     if st == "disagree":
                         res["disagreements"].append({"stream": "model-vs-impl(generic)", "case": src, "detail": detail})
+                elif model and not release:
+                    model_status["inconclusive"] += 1
 
     res["extra"].update({
         "structured_programs": n_struct, "structured_rejected_by_checker": rejected,
@@ -1352,7 +1381,7 @@ def correspond(env, searching=False, model=True):
         "structured_generator_actions": kinds_total,
         "generic_programs": n_generic, "generic_accepted": g_accepted, "generic_programs_with_completed_probe": g_with_probe,
         "generic_completed_probes": g_probes, "generic_generator_stats": gstats,
-        "model_comparison": model_status, "profiles": ["release" if p else "debug" for p in profiles],
+        "model_comparison": model_status, "model_executable_crashed_on": model_skipped[:10], "profiles": ["release" if p else "debug" for p in profiles],
         "configurations": CFGS,
     })
     env.log("C05: %d structured (%d rejected, endings %s), %d generic (%d accepted, %d probes); model %s; failures %d, disagreements %d" % (
